@@ -4,7 +4,10 @@ use crate::report::Ctx;
 pub mod budget;
 pub mod evalsym;
 pub mod hashing;
+pub mod interrupt;
+pub mod position;
 pub mod rules;
+pub mod search;
 pub mod tables;
 pub mod tt;
 
@@ -15,6 +18,11 @@ pub fn run(ctx: &Ctx) -> i32 {
     }
     match ctx.id.as_str() {
         "C01" | "C02" | "C17" => rules::run(ctx),
+        "C04" => position::run_c04(ctx),
+        "C09" => position::run_c09(ctx),
+        "C05" => search::run_c05(ctx),
+        "C06" | "C07" => interrupt::run(ctx),
+        "C08" => search::run_c08(ctx),
         "C10" => tables::run(ctx),
         "C11" => hashing::run(ctx),
         "C12" => budget::run(ctx),
